@@ -15,6 +15,8 @@ Node specs (lists, so they survive a JSON round trip):
   ["PY", kids]                   plain python list of children (nested-list argument)
   ["TU", kids]                   tuple of children
   ["NONE"]                       None
+  ["OBJ"] ["DICT"] ["SET"] ["BYTES"]   values of unsupported type (object(), {"a":1}, {1}, b"x")
+  ["GEN", kids]                  generator yielding the children
 attribute value specs:  str | int | float | True | False | None | ["H", markup]
 """
 from __future__ import annotations
@@ -122,6 +124,16 @@ def build(spec: Any) -> Any:
         return tuple(build(c) for c in spec[1])
     if k == "NONE":
         return None
+    if k == "OBJ":
+        return object()
+    if k == "DICT":
+        return {"a": 1}
+    if k == "SET":
+        return {1}
+    if k == "BYTES":
+        return b"x"
+    if k == "GEN":
+        return (build(c) for c in spec[1])
     raise ValueError(f"unknown spec kind {k!r}")
 
 
